@@ -165,6 +165,18 @@ impl Model {
         if let Some(d) = own.last() {
             return Res::One(*d);
         }
+        // 1b. fixtures the test module itself imports (C14: "available exactly where the importing
+        //     file makes them available"); C01's generator never produces test-module imports
+        if loc.is_test() {
+            if let Some(defs) = self.imported[file].get(name) {
+                let cands: BTreeSet<DefId> = defs.iter().copied().filter(|d| Some(*d) != exclude).collect();
+                if cands.len() == 1 {
+                    return Res::One(*cands.iter().next().unwrap());
+                } else if cands.len() > 1 {
+                    return Res::Unjudged("several imports supply the name to one test module");
+                }
+            }
+        }
         // 2. conftest walk (only meaningful for files under the project root)
         if !(loc.is_plugin() || loc.is_third_party()) {
             let mut d = Some(loc.dir);
